@@ -136,6 +136,8 @@ fn written(x: &str, expo: bool) -> String {
 pub fn render<A: Abc>(fmt: &str, motifs: &[Motif], rng: &mut impl Rng, version_block: bool) -> Vec<u8> {
     let mut s = String::new();
     let letter = |r: usize| A::sym(r).as_char();
+    // a UniPROBE file may start with blank lines (as it may have them between records)
+    if fmt == "uniprobe" && rng.gen_bool(0.3) { for _ in 0..rng.gen_range(1..4) { s.push('\n'); } }
     if fmt == "transfac" && version_block {
         s.push_str("VV  TRANSFAC MATRIX TABLE, Release 9.2 - licensed - 2005-06-30, (C) Biobase GmbH\nXX\n//\n");
     }
@@ -203,6 +205,8 @@ pub fn render<A: Abc>(fmt: &str, motifs: &[Motif], rng: &mut impl Rng, version_b
             _ => panic!("fmt"),
         }
     }
+    // TRANSFAC flat files written on other systems: CRLF line terminators throughout (one file in five)
+    if fmt == "transfac" && motifs.len() >= 1 && rng.gen_bool(0.2) { s = s.replace('\n', "\r\n"); }
     s.into_bytes()
 }
 
@@ -497,7 +501,11 @@ pub fn record_c15(rec: &mut Recorder, seed: u64, thorough: bool) {
             "jaspar16" => vec![b">ID\nA [ ]\nC [ ]\nG [ ]\nT [ ]\n", b">ID\nG []\n", b">ID\nN [ 1 2 ]\n", b">ID\nA [ 1 ]\nA [ 2 ]\n", b">ID\nA [ 1 2 ]\nC [ 1 ]\n",
                                b">ID\nA [ 1 2 ]\nC [ 3 4 ]\nG [ 5 6 ]\nT [ 7 8 ]\nN [ 0 1 ]\n", b">ID\n"],
             "transfac" => vec![b"ID  x\nP0      A      C      G      T\nXX\n//\n", b"ID  x\nP0      N\n01      3      N\nXX\n//\n",
-                               b"ID  x\nP0      A      C      G      T      N\n01      1      2      3      4      5      N\nXX\n//\n", b"ID  x\nXX\n//\n", b"//\n//\n"],
+                               b"ID  x\nP0      A      C      G      T      N\n01      1      2      3      4      5      N\nXX\n//\n", b"ID  x\nXX\n//\n", b"//\n//\n",
+                               // more columns than the alphabet has symbols (a symbol named twice)
+                               b"ID  x\nP0      A      C      G      T      A      C\n01      1      2      3      4      5      6      N\nXX\n//\n",
+                               b"ID  x\nP0      A      A      A      A      A      A      A\n01      1      2      3      4      5      6      7      N\n02      1      2      3      4      5      6      7      N\nXX\n//\n",
+                               b"ID  x\r\nP0      A      C      G      T\r\n01      1      2      3      4      N\r\nXX\r\n//\r\nID  y\r\nP0      A      C      G      T\r\n01      1      2      3      4      N\r\nXX\r\n//\r\n"],
             _ => vec![b"ID\nN:\t1.0\n", b"ID\nN:\t0.5\t0.5\nA:\t0.5\t0.5\n", b"ID\nA:\n", b"ID\nA:\t1.0\nA:\t1.0\n", b"ID\nA:\t0.25\nC:\t0.25\nG:\t0.25\nT:\t0.25\nN:\t0.0\n", b"ID\n\nID2\nA:\t1\n"],
         };
         for (i, data) in odd.iter().enumerate() {
